@@ -176,8 +176,9 @@ def wcall (lrv : Nat) (r : Req) (k : Resp → P) : P := .call r fun
 (a Go map: a later entry for the same name replaces the earlier one) -/
 abbrev Obs := List (String × CObj)
 
-def obsInsert (obs : Obs) (n : String) (o : CObj) : Obs :=
-  if obs.any (·.1 = n) then obs.map (fun p => if p.1 = n then (n, o) else p) else obs ++ [(n, o)]
+def obsInsert : Obs → String → CObj → Obs
+  | [], n, o => [(n, o)]
+  | p :: ps, n, o => if p.1 = n then (n, o) :: ps else p :: obsInsert ps n o
 
 def obsLookup (obs : Obs) (n : String) : Option CObj :=
   (obs.find? (·.1 = n)).map (·.2)
@@ -203,6 +204,7 @@ def observeFn (lrv : Nat) : List Ref → Obs → (Obs → P) → P
 structure Named where
   d : Desired
   name : String
+  gen : Bool     -- the name was generated in this reconcile (else inherited from the observed resource)
   deriving Repr, Inhabited
 
 /-- the render loop of the function composer: inherit the observed name, else
@@ -212,12 +214,12 @@ def renderFn (lrv : Nat) (obs : Obs) : List Desired → List String → List Nam
   | [], _, acc, k => k acc.reverse
   | d :: ds, fresh, acc, k =>
     match obsLookup obs d.rname with
-    | some o => renderFn lrv obs ds fresh (⟨d, o.name⟩ :: acc) k
+    | some o => renderFn lrv obs ds fresh (⟨d, o.name, false⟩ :: acc) k
     | none =>
       match fresh with
       | [] => onError lrv   -- generator gave up
       | n :: fresh' => .call (.getObj d.kind n) fun
-        | .notFound => renderFn lrv obs ds fresh' (⟨d, n⟩ :: acc) k
+        | .notFound => renderFn lrv obs ds fresh' (⟨d, n, true⟩ :: acc) k
         | .found _ => onError lrv   -- (the real generator retries with another random name; never observed)
         | _ => onError lrv
 
@@ -232,8 +234,10 @@ def gcFn (lrv : Nat) : List CObj → P → P
 def refLt (a b : Ref) : Bool := (a.kind ++ a.name) < (b.kind ++ b.name)
 
 /-- UpdateResourceRefs: references of all desired resources, sorted -/
+def nkey (n : Named) : Ref := ⟨n.d.kind, n.name⟩
+
 def refsOf (ns : List Named) : List Ref :=
-  (ns.map fun n => (⟨n.d.kind, n.name⟩ : Ref)).mergeSort (fun a b => !refLt b a)
+  (ns.map nkey).mergeSort (fun a b => !refLt b a)
 
 /-- the apply loop of the function composer -/
 def applyFn (lrv : Nat) : List Named → Bool → (Bool → P) → P
@@ -243,36 +247,33 @@ def applyFn (lrv : Nat) : List Named → Bool → (Bool → P) → P
       | .invalid => applyFn lrv ns false k   -- tolerated: the resource is reported unsynced
       | _ => applyFn lrv ns synced k
 
-/-- order a list of desired resources / observed resources by a hint (names first
-in hint order, the rest in the given order) -/
+/-- order a list by a hint (elements whose key is hinted first, in hint order, then
+the rest): how the driver replays Go's map iteration order -/
 def orderBy {α : Type} (key : α → String) (hint : List String) (xs : List α) : List α :=
-  let hinted := hint.filterMap fun h => xs.find? (fun x => key x = h)
-  hinted ++ xs.filter (fun x => !hint.contains (key x))
+  (hint.flatMap fun h => xs.filter (fun x => key x == h)) ++ xs.filter (fun x => !hint.contains (key x))
 
-structure Hints where
-  gen : List (String × String)   -- (rname, generated name) in generation order
-  gc : List String
-  apply : List String
-  deriving Repr, Inhabited
+/-- the nondeterministic choices of one function-composer run -/
+structure Choices where
+  fresh : List String                   -- names the generator will propose, in order
+  gcOrder : List CObj → List CObj       -- Go's map order in the garbage-collection loop
+  applyOrder : List Named → List Named  -- Go's map order in the apply loop
 
 inductive FnOut where
-  | desired (ds : List Desired)
+  | desired (ds : List Desired)   -- in the render loop's (map) iteration order
   | failed      -- a step errored, returned a fatal result, or its requirements never stabilised
   deriving Repr, Inhabited
 
 /-- FunctionComposer.Compose followed by the tail of Reconcile -/
-def composeFn (lrv : Nat) (refs : List Ref) (out : Obs → FnOut) (h : Hints) : P :=
+def composeFn (lrv : Nat) (refs : List Ref) (out : Obs → FnOut) (ch : Choices) : P :=
   observeFn lrv refs [] fun obs =>
   match out obs with
   | .failed => onError lrv
   | .desired ds =>
-    -- render order: resources needing a name in generation order, observed ones anywhere
-    let ds' := orderBy (·.rname) (h.gen.map (·.1)) ds
-    renderFn lrv obs ds' (h.gen.map (·.2)) [] fun named =>
+    renderFn lrv obs ds ch.fresh [] fun named =>
     let undesired := (obs.filter fun p => !(ds.any (·.rname = p.1))).map (·.2)
-    gcFn lrv (orderBy (·.annot) h.gc undesired) <|
+    gcFn lrv (ch.gcOrder undesired) <|
     wcall lrv (.patchRefs (refsOf named)) fun _ =>
-    applyFn lrv (orderBy (·.d.rname) h.apply named) true fun synced =>
+    applyFn lrv (ch.applyOrder named) true fun synced =>
     -- before this call the local XR is replaced by the function's desired XR (FromStruct),
     -- which carries no resourceVersion: a failure here leads to an unconditional status update
     .call .statusPatch fun
@@ -285,8 +286,12 @@ def composeFn (lrv : Nat) (refs : List Ref) (out : Obs → FnOut) (h : Hints) : 
 /-- template association: for each template (by name) the referenced existing resource, if any -/
 abbrev Assoc := List (String × Ref)
 
-def assocInsert (a : Assoc) (n : String) (r : Ref) : Assoc :=
-  if a.any (·.1 = n) then a.map (fun p => if p.1 = n then (n, r) else p) else a ++ [(n, r)]
+def assocInsert : Assoc → String → Ref → Assoc
+  | [], n, r => [(n, r)]
+  | p :: ps, n, r => if p.1 = n then (n, r) :: ps else p :: assocInsert ps n r
+
+def assocLookup (a : Assoc) (n : String) : Option Ref :=
+  (a.find? (·.1 = n)).map (·.2)
 
 /-- GarbageCollectingAssociator.AssociateTemplates (all templates named) -/
 def associatePT (lrv : Nat) (tmpl : List Desired) : List Ref → Assoc → (Assoc → P) → P
@@ -316,12 +321,14 @@ structure Rendered where
   rendered : Bool
   deriving Repr, Inhabited
 
+def rkey (r : Rendered) : Ref := ⟨r.d.kind, r.name⟩
+
 /-- the render loop of the P&T composer (template order; a failed name probe
 leaves the template unrendered and does NOT abort) -/
 def renderPT (lrv : Nat) (a : Assoc) : List Desired → List String → List Rendered → (List Rendered → P) → P
   | [], _, acc, k => k acc.reverse
   | d :: ds, fresh, acc, k =>
-    match (a.find? (·.1 = d.rname)).map (·.2) with
+    match assocLookup a d.rname with
     | some r =>
       -- RenderFromJSON refuses a template whose kind differs from the referenced resource
       if r.kind = d.kind then renderPT lrv a ds fresh (⟨d, r.name, true⟩ :: acc) k else onError lrv
@@ -353,7 +360,7 @@ def applyPT (lrv : Nat) : List Rendered → Bool → (Bool → P) → P
 def composePT (lrv : Nat) (refs : List Ref) (tmpl : List Desired) (fresh : List String) : P :=
   associatePT lrv tmpl refs [] fun a =>
   renderPT lrv a tmpl fresh [] fun rs =>
-  wcall lrv (.updateXR lrv (rs.map fun r => ⟨r.d.kind, r.name⟩)) fun rsp =>
+  wcall lrv (.updateXR lrv (rs.map rkey)) fun rsp =>
   let lrv' := match rsp with | .okRv rv => rv | _ => lrv
   applyPT lrv' rs true fun synced =>
   .call .getXR fun
@@ -361,7 +368,7 @@ def composePT (lrv : Nat) (refs : List Ref) (tmpl : List Desired) (fresh : List 
     | _ => onError lrv'
 
 inductive Mode where
-  | fn (out : Obs → FnOut) (h : Hints)
+  | fn (out : Obs → FnOut) (ch : Choices)
   | pt (tmpl : List Desired) (fresh : List String)
 
 /-- Reconciler.Reconcile for a live, unpaused XR -/
@@ -369,7 +376,7 @@ def reconcile (m : Mode) : P :=
   .call .getXR fun
     | .xr fin rv refs =>
       let body (lrv : Nat) : P := match m with
-        | .fn out h => composeFn lrv refs out h
+        | .fn out ch => composeFn lrv refs out ch
         | .pt tmpl fresh => composePT lrv refs tmpl fresh
       if fin then body rv
       else .call (.addFinalizer rv) fun
